@@ -146,7 +146,7 @@ def run(pr, repo):
                    And(*[ryv.attrs[k] == ey[i] for i, k in enumerate('xyz')]), kind='aux')
         ctx.oblige('vacuity guard: helper contract with a false post is refuted', False, kind='aux',
                    meta={'expect': 'refuted'})
-    pr.add_paths(ex.run_paths(helper_thunk))
+    pr.explore(ex, helper_thunk, 'helper contracts (rotate_atoms_around_z/y_axis, Matrix4x4.__matmul__)')
 
     # ---- pure lemmas
     lem = pure_lemmas()
@@ -198,8 +198,7 @@ def run(pr, repo):
                    And(*[w[i] * n * n == rod[i] for i in range(3)]), kind='top',
                    meta={'replay': replay_builder})
         return r
-    paths = ex.run_paths(thunk)
-    pr.add_paths(paths)
+    paths = pr.explore(ex, thunk, FN)
     pr.notes.append('%d paths of %s explored' % (len(paths), FN))
     pr.assumptions.append('the two pure lemmas are used as instantiated hypotheses of the final obligation only after '
                           'being proved for all reals in the same run')
